@@ -65,9 +65,10 @@ func (core *JApiCore) collectPathVariables(d *directive.Directive) *jerr.JApiErr
 
 	parentDirective := *d.Parent
 
-	if len(core.rawPathVariables) != 0 {
-		prevParent := core.rawPathVariables[len(core.rawPathVariables)-1].parentDirective
-		if prevParent.Equal(parentDirective) {
+	// The parent can have only one Path directive, wherever it is among the
+	// parent's children.
+	for _, v := range core.rawPathVariables {
+		if v.parent == d.Parent {
 			return d.KeywordError(jerr.NotUniqueDirective)
 		}
 	}
@@ -75,6 +76,7 @@ func (core *JApiCore) collectPathVariables(d *directive.Directive) *jerr.JApiErr
 	core.rawPathVariables = append(core.rawPathVariables, rawPathVariable{
 		pathDirective:   *d,
 		parentDirective: parentDirective,
+		parent:          d.Parent,
 		schema:          s,
 		parameters:      pp,
 	})
